@@ -18,7 +18,7 @@ from pathlib import Path
 import py2v
 from py2v import Untranslatable, External
 from bridge import json_to_coq, cz
-from common import coq_string, coq_list, parse_bools
+from common import coq_string, coq_list, parse_bools, sha
 
 # test hook (mutation testing of this check on a scratch copy of the repository; ./check runs under `env -i`
 # and can never see it): the tree that is translated and executed
@@ -970,7 +970,7 @@ def stream_build_values(ctx):
     und = 0
     for c, (gi, ti, ri), (verdict, info) in zip(vcases, owners, verdicts):
         g = gens[gi]
-        sv.record({'kind': g['kind'], 'env': c['env'], 'tree': ti, 'case': gi}, nontrivial=verdict != 'undecided')
+        sv.record({'kind': g['kind'], 'env': c['env'], 'tree': sha(c['expr'])}, nontrivial=verdict != 'undecided')
         if verdict == 'undecided':
             und += 1
         elif verdict == 'differ':
@@ -1164,7 +1164,11 @@ def replay(ctx, path):
         return 2
     case = wit.get('case', wit)
     kind = case.get('kind')
-    r = run_impl(ctx, [case])[0]
+    try:
+        r = run_impl(ctx, [case])[0]
+    finally:
+        import shutil
+        shutil.rmtree(ctx.scratch, ignore_errors=True)
     still = None
     if kind == 'pwfunction':
         tsf = [None if t is None else (Fraction(t) if isinstance(t, int) else fr(float.fromhex(t))) for t in case['ts']]
